@@ -81,7 +81,113 @@ class C04(Property):
 
     def regen(self, ctx):
         self._consts = None
-        return c04consts.regen()
+        c04consts.LAST = None
+        notes = c04consts.regen(probe=self._probe)
+        self._consts = c04consts.LAST
+        return notes
+
+    # ------------------------------------------------------------------
+    # the translator's behavioural fallback (tools/c04consts.py): items whose source shape the regular
+    # expressions do not recognise are established by experiment on the code of the current tree
+
+    def _probe(self, groups):
+        from fractions import Fraction
+        got = {}
+        dflt = c04consts.DEFAULTS
+        rest_groups = set(groups) - {"engine", "sse"}
+        if rest_groups:
+            ok, res = vlib.go_build("c04")
+            if not ok:
+                raise RuntimeError("executor does not build: " + res[-400:])
+
+            def rc(script, mode="none", pos=0, **kw):
+                c = self._rest(script, [], mode, pos, **kw)
+                c.update(names={}, pshape="plain", paths_done=True)
+                return c
+            cases = {
+                "cancel": rc([["w", [200]]], "cancel", 0),
+                "deadline": rc([["w", [200]]], "deadline", 0),
+                "plain": rc([["w", [200]]]),
+                "ws": rc([["w", [200]]], req="ws"),
+                "sse": rc([["w", [200]]], req="sse"),
+                "empty": rc([]),
+                "wh200": rc([["wh", 200], ["w", [200]]]),
+                "skip": rc([["wh", 404], ["flush"], ["w", [200]]], fl=True),
+                "lateflush": rc([["flush"]], "cancel", 0, fl=True),
+                "flushstatus": rc([["wh", 404], ["flush"]], fl=True),
+                "recover": rc([["panic", 1]], rec=True),
+            }
+            for code in (201, 204, 404, 500, 99, 100, 599, 600, 0, 1000, -1):
+                cases["wh%d" % code] = rc([["wh", code]])
+            cases["lock"] = {"kind": "lockprobe"}
+            names = sorted(cases)
+            sub = [dict(cases[n], id=j) for j, n in enumerate(names)]
+            rcode, out, res = vlib.go_run(res, sub, tag="c04probe", timeout=300)
+            if rcode != 0 or len(res) != len(sub) or any(r.get("err") for r in res if r.get("kind") != "lockprobe"):
+                raise RuntimeError("probe run failed: rc=%s %s" % (rcode, out[-300:]))
+            o = dict(zip(names, res))
+            if "locked" in o["lock"]:
+                got["flush_locks"] = bool(o["lock"]["locked"])
+            reason = bytes(o["cancel"]["w"]["body"])
+            if o["cancel"]["sout"] == "ret" and o["deadline"]["sout"] == "ret" and o["cancel"]["w"]["status"] \
+                    and o["deadline"]["w"]["status"] and reason == bytes(o["deadline"]["w"]["body"]):
+                got["code_cancel"], got["code_deadline"] = o["cancel"]["w"]["status"], o["deadline"]["w"]["status"]
+                try:
+                    got["reason"] = reason.decode("ascii")
+                except UnicodeDecodeError:
+                    pass
+            got["write_checks_timedout"] = o["cancel"]["hobs"][:1] == [["wto"]]
+            # the exemption test: requests with exactly these headers run unwrapped, a plain one wrapped
+            if o["plain"]["wrapped"] and not o["ws"]["wrapped"] and not o["sse"]["wrapped"]:
+                got["exempt"] = list(dflt["exempt"])
+            if o["plain"]["w"]["status"] == o["empty"]["w"]["status"] and o["plain"]["w"]["wh_calls"] == 0:
+                got["code_default"] = o["plain"]["w"]["status"]
+            fwd = all(o["wh%d" % c_]["w"]["status"] == c_ and o["wh%d" % c_]["w"]["wh_calls"] == 1 for c_ in (201, 204, 404, 500))
+            if fwd and o["wh200"]["w"]["status"] == 200 and o["wh200"]["w"]["wh_calls"] == 0:
+                got["code_implicit"] = 200
+            if o["skip"]["w"]["status"] == 404 and o["skip"]["w"]["wh_calls"] in (1, 2):
+                got["done_skips_status_when_flushed"] = o["skip"]["w"]["wh_calls"] == 1
+
+            def bad(c_):
+                r = o["wh%d" % c_]
+                return r["sout"] == "panic" and r["pkind"] == "badcode" and r["pval"] == c_
+            if all(bad(c_) for c_ in (99, 600, 0, 1000, -1)) and not bad(100) and not bad(599) and not bad(201):
+                got["code_min"], got["code_max"] = 100, 599
+            lf = o["lateflush"]["w"]
+            got["flush_checks_timedout"] = lf["flushes"] == 0 and lf["late"] == 0 and o["lateflush"]["sout"] == "ret"
+            got["flush_sends_status"] = o["flushstatus"]["w"]["status"] == 404
+            if o["recover"]["sout"] == "ret" and o["recover"]["hobs"][1:2] and o["recover"]["hobs"][1][0] == "rec":
+                got["recover_code"] = o["recover"]["hobs"][1][1]
+        if {"engine", "sse"} & set(groups):
+            (an, av) = dflt["exempt"][1]
+            q0 = {"group": 0, "route": 0, "hdrs": [], "parent_ns": None, "fl": True, "h0": [], "deadline": False,
+                  "script": [], "pshape": "plain"}
+            q1 = {"group": 1, "route": 0, "hdrs": [[an, av]], "parent_ns": None, "fl": True, "h0": [], "deadline": False,
+                  "script": [["w", [200]]], "pshape": "plain"}
+            conf_ms = 60000
+            c = {"kind": "srv", "id": 0, "conf_ms": conf_ms, "mw_timeout": True, "mw_inner": False, "names": {},
+                 "groups": [{"opts": [], "n": 1}, {"opts": [["sse"]], "n": 1}], "reqs": [q0, q1],
+                 "order": [["start", 0], ["H", 0], ["start", 1], ["H", 1], ["H", 1]], "procs": 0}
+            res = self._exec_kind("srv", [c])
+            if len(res) != 1 or res[0].get("err"):
+                raise RuntimeError("server probe failed: %s" % (res[0].get("err") if res else "no result"))
+            r = res[0]
+            eng, rd, wr = r["eng_ns"], r["read_ns"], r["write_ns"]
+            r0 = r["reqs"][0]
+            if eng > 0 and eng % conf_ms == 0 and r0["has_dl"] and r0["wrapped"]:
+                got["conf_unit_ns_engine"] = eng // conf_ms
+                span = r0["dl_seen_ns"] - r0["t1_ns"]
+                for u in (1, 10**3, 10**6, 10**9):
+                    if r0["t0_ns"] + conf_ms * u <= r0["dl_seen_ns"] <= r0["t1_ns"] + conf_ms * u:
+                        got["conf_unit_ns"] = u
+                fr, fw = Fraction(rd, eng), Fraction(wr, eng)
+                got["read_num"], got["read_den"] = fr.numerator, fr.denominator
+                got["write_num"], got["write_den"] = fw.numerator, fw.denominator
+            hs = dict((x["name"], x["vals"]) for x in r["reqs"][1]["w"].get("snap_x") or [])
+            if hs and all(len(v) == 1 for v in hs.values()) and not r["reqs"][1]["wrapped"]:
+                order = [n for n, _v in dflt["sse_headers"] if n in hs] + sorted(n for n in hs if n not in dict(dflt["sse_headers"]))
+                got["sse_headers"] = [(n, hs[n][0]) for n in order]
+        return got
 
     # ------------------------------------------------------------------
     def prepare(self, ctx):
